@@ -449,4 +449,58 @@ theorem accepts_shape (c : PCmd) (ht : c.typed = true) (hf : ∀ f ∈ PCmd.filt
   | tagTypesEnable tags => acc_tac; exact acceptsAll_tags tags
   | _ => first | rfl | acc_tac
 
+/-! ## durations of a typed command are `Duration` values -/
+
+/-- durations inside a piece are `Duration` values -/
+def durTyped : Part → Bool
+  | .dur d => d.typed
+  | .seek m => m.dur.typed
+  | _ => true
+
+theorem all_durTyped_tags (ts : List Tag) : (ts.map Part.tag).all durTyped = true := by
+  induction ts with
+  | nil => rfl
+  | cons t ts ih => simp [durTyped, ih]
+
+theorem all_durTyped_groups (gs : List Tag) :
+    (gs.flatMap fun g => [Part.kw (str "group"), Part.tag g]).all durTyped = true := by
+  induction gs with
+  | nil => rfl
+  | cons g gs ih => simp [durTyped, ih]
+
+macro "dt_tac" : tactic => `(tactic| (
+  simp only [shape, optParts, List.all_cons, List.all_append, List.all_nil, durTyped, Bool.and_true, Bool.true_and,
+    List.cons_append, List.nil_append, List.append_nil, all_durTyped_tags, all_durTyped_groups, Bool.and_self]))
+
+theorem shape_durTyped (c : PCmd) (ht : c.typed = true) : (shape c).2.all durTyped = true := by
+  cases c with
+  | queueSong s => cases s <;> rfl
+  | seekTo s d =>
+    simp only [PCmd.typed, Bool.and_eq_true] at ht
+    cases s <;> (dt_tac; exact ht.2)
+  | seek m => dt_tac; exact ht
+  | playSong s => cases s <;> rfl
+  | add uri pos => cases pos <;> rfl
+  | move f t => cases f <;> rfl
+  | find f sort window => cases sort <;> cases window <;> rfl
+  | list t f g => cases f <;> dt_tac
+  | countGrouped g f => cases f <;> rfl
+  | loadPlaylist n r => cases r <;> rfl
+  | addToPlaylist pl url pos => cases pos <;> rfl
+  | listAllIn dir => cases dir <;> rfl
+  | tagTypesDisable tags => dt_tac
+  | tagTypesEnable tags => dt_tac
+  | stickerFind uri n f => cases f <;> rfl
+  | update uri => cases uri <;> rfl
+  | rescan uri => cases uri <;> rfl
+  | _ => rfl
+
+theorem durs_typed (c : PCmd) (ht : c.typed = true) : ∀ d ∈ c.durs, d.typed = true := by
+  intro d hd
+  obtain ⟨p, hp, hpd⟩ := List.mem_filterMap.mp hd
+  have := List.all_eq_true.mp (shape_durTyped c ht) p hp
+  cases p <;> simp at hpd
+  · subst hpd; exact this
+  · subst hpd; exact this
+
 end Mpd.ReqL
